@@ -157,6 +157,13 @@ theorem eq_form_sound (s : CliSpec) (pre post : List String) (t f v : String) (t
     parseX s (pre ++ t :: post) = parseX s (pre ++ f :: v :: post) :=
   engine_eqform_one (mainBind s) (mainSpec s) pre post t f v tg hpre ht hf hv hct hcf hcv h1
 
+/-- the hypotheses of `eq_form_sound` hold of `--sparse=3` for `stone`, and both spellings parse alike -/
+example : (cliSpecs.find? (fun s => s.kind == "formula" && s.name == "stone")).map (fun s =>
+      ((match classifyTok (mainSpec s).strings "--sparse=3" with | .opt (.opt o) f (some v) => (o.dest, f, v, decide (o.arity = .one)) | _ => ("", "", "", false)),
+       classifyTok (mainSpec s).strings "3" == .arg "3",
+       parseX s ["2", "pyramid", "2", "--sparse=3"] == parseX s ["2", "pyramid", "2", "--sparse", "3"])) =
+    some (("sparse", "--sparse", "3", true), true, true) := by decide +kernel
+
 /-- … for an option that takes ONE OR MORE arguments (the graph options `-e`, `-G`, `-H`): `f=v` takes exactly `v`, so
 it is `f v` when no further argument follows (end of the command line, an option, `--`) -/
 theorem eq_form_sound_plus (s : CliSpec) (pre post : List String) (t f v : String) (tg : Target)
